@@ -198,9 +198,11 @@ def ob_continuation(i: int) -> Optional[str]:
 # (c) bare == explicit over a generated family
 # ----------------------------------------------------------------------------
 SEGS = ["echo a", "ls -l", "cat < a.b.c", "ls -a > a.b.c.de", "wc -l < foo.tar.Z", "echo $HOME", "echo @(1)", "echo $(echo x)", "echo 'q w'",
-        "ls | wc", "cat < main.c.o", "echo --b=c", "ls --color=auto", "echo a.b.c.d e.f.g.h", "grep -v x y.z"]
+        "ls | wc", "cat < main.c.o", "echo --b=c", "ls --color=auto", "echo a.b.c.d e.f.g.h", "grep -v x y.z",
+        # segments that end in an operator-like word (the parse error then falls on the following break token), alone and after a substitution
+        "cd -", "rm -rf *", "echo @(1) -", "echo $(echo q) *"]
 OPS = [None, "&&", "||", "and", "or"]
-POSITIONS = ["top", "after_semicolon", "block", "block2", "function", "continuation"]
+POSITIONS = ["top", "after_semicolon", "block", "block2", "function", "continuation", "after_subst_semicolon"]
 
 
 class _OK:
@@ -233,6 +235,8 @@ def _program(segs, op, pos, explicit):
         return line + "\n"
     if pos == "after_semicolon":
         return "x = 1; " + line + "\n"
+    if pos == "after_subst_semicolon":
+        return "x = $(echo q); " + line + "\n"
     if pos == "block":
         return "if True:\n    " + line + "\n"
     if pos == "block2":
@@ -342,7 +346,7 @@ OBLIGATIONS = [
                bounds=f"{NS} command segments (flags, redirects to dotted names, $VAR, @(), $(), quoted words, pipes, --opt=value) alone or joined "
                       "by && / || / and / or, at top level, after ';', in an indented block, at depth 2, in a function body, across a backslash "
                       "continuation: the bare program runs exactly the commands of the program with every segment wrapped in ![...]",
-               pre=[f"0 <= s0 < {NS}", f"0 <= s1 < {NS}", "0 <= op_i < 5", "0 <= pos_i < 6"],
+               pre=[f"0 <= s0 < {NS}", f"0 <= s1 < {NS}", "0 <= op_i < 5", "0 <= pos_i < 7"],
                parts={"quick": [dict(pos_i=p, op_i=o) for p in range(len(POSITIONS)) for o in range(len(OPS))]},
                timeout={"quick": 240, "thorough": 600},
                regions={"C03-dashdash-eq-in-chain": _region_dashdash, "C03-continued-python-parsable-chain": _region_cont_chain},
